@@ -412,7 +412,7 @@ var fixedPrograms = []string{
 	`help(1; 2)`, `1, repl`, `1 | repl.a`, `def repl: 1; repl`, `def f: 1;`, `def f: 1; def g: 2;`, `[.[] | {a, b: (1, 2)}]`, `[]`, `{}`,
 	`.[1 as $x | $x]`, `(1 as $x | $x) + 1`, `(label $l | 1) + 1`, `(def f: 1; f) + 1`, `1 + (2, 3)`, `(1, 2) | (3 | 4)`, `((1))`, `(.a).b`,
 	`input | inputs`, `limit(2; inputs)`, `empty, error("x")`, `. as {a: $x, $y, "b": [$z], ("c" + "d"): $w} | 1`, `. as [$a] ?// {a: $a} ?// $a | $a`,
-	`# comment\n1 # c2\n| 2`, "1\n|\n2", `"a" "b"`, `1 == 2 == 3`, `.a = .b = 1`, `a::b(1)`, `$a::b`, `import "" as x; 1`, `include ""; 1`,
+	`# comment\n1 # c2\n| 2`, "1\n|\n2", `"a" "b"`, `1 == 2 == 3`, `.a = .b = 1`, `a::b(1)`, `$a::b`, `include ""; 1`,
 	`"\(1)\(2)"`, `"\("\("x")")"`, `@text "\(1)"`, `.["a"]`, `.[1,2]`, `."a\(1)"`, `.a."b\(1)"[0]?`, `break $x`, `label $x | break $x | 1`,
 	`try error catch . | 1`, `try error catch (. | 1)`, `1 as $x | 2, 3`, `(1 as $x | 2), 3`, `1 // 2 | 3`, `.a |= (1 | 2)`, `. as $x | [$x | 1]`,
 }
@@ -518,6 +518,11 @@ func main() {
 	if len(cfg.Args) > 0 && cfg.Args[0] == "cli" {
 		res := runMain(cfg.Args[1:], cliVFS(), nil)
 		fmt.Printf("exit=%d panic=%q\nstdout:\n%s\nstderr:\n%s\n", res.exit, res.panic, res.stdout, res.stderr)
+		return
+	}
+	if len(cfg.Args) > 0 && cfg.Args[0] == "repl" {
+		res := runMain([]string{"-n", "-i", "-c", replInputsExpr}, cliVFS(), cfg.Args[1:])
+		fmt.Printf("exit=%d panic=%q\nstdout:\n%s\nstderr:\n%s\n", res.exit, res.panic, strings.ReplaceAll(string(res.stdout), "\x00", "--"), res.stderr)
 		return
 	}
 	if len(cfg.Args) > 0 && cfg.Args[0] == "timing" {
